@@ -213,6 +213,30 @@ func PanicSite(stack string) string {
 	return "unknown"
 }
 
+// DominantSite names the engine function that occurs most often in a goroutine dump (ties: alphabetical). For runaway
+// recursion the innermost frame differs from sample to sample, the dominant one does not.
+func DominantSite(dump string) string {
+	count := map[string]int{}
+	for _, line := range strings.Split(dump, "\n") {
+		line = strings.TrimSpace(line)
+		if !strings.HasPrefix(line, "github.com/semihalev/twig.") {
+			continue
+		}
+		name := strings.TrimPrefix(line, "github.com/semihalev/twig.")
+		if i := strings.LastIndex(name, "("); i >= 0 {
+			name = name[:i]
+		}
+		count[strings.TrimSuffix(name, "(...)")]++
+	}
+	best, bn := "unknown", 0
+	for n, c := range count {
+		if c > bn || (c == bn && n < best) {
+			best, bn = n, c
+		}
+	}
+	return best
+}
+
 // Guard runs f and converts a panic into (site, value, stack).
 func Guard(f func()) (panicked bool, site, val, stack string) {
 	defer func() {
